@@ -109,6 +109,16 @@ macro_rules! ecc_body {
                 { let r_ = chip.mul_by_constant(l, c, &ps[0])?; out_pt(l, &r_)? }
             }
             "msm" => { let r_ = chip.msm(l, &ss, &ps)?; out_pt(l, &r_)? },
+            // bases that share cells: P with its in-circuit negation, and the same assigned point twice
+            "msm_negpair" => {
+                let np = chip.negate(l, &ps[0])?;
+                let r_ = chip.msm(l, &ss, &[ps[0].clone(), np])?;
+                out_pt(l, &r_)?
+            }
+            "msm_dup" => {
+                let r_ = chip.msm(l, &ss, &[ps[0].clone(), ps[0].clone()])?;
+                out_pt(l, &r_)?
+            }
             "msm_bounded" => {
                 let sb: Vec<_> = ss.iter().cloned().zip(bounds.iter().cloned()).collect();
                 { let r_ = chip.msm_by_bounded_scalars(l, &sb, &ps)?; out_pt(l, &r_)? }
